@@ -99,7 +99,7 @@ func runC20_1(c *Ctx) {
 				want = "zero"
 			}
 			idx := i
-			var badStore ssa.Instruction
+			var badStore, badSetter ssa.Instruction
 			pass := func(in ssa.Instruction) bool {
 				switch x := in.(type) {
 				case *ssa.Store:
@@ -153,7 +153,12 @@ func runC20_1(c *Ctx) {
 						}
 					}
 					if selfM != nil && o == selfM && rv != nil && Resolve(rv) == recv {
-						return true
+						// the setter is handed the default and stores its argument into the field unconditionally
+						args := CallArgs(x)
+						if len(args) == 1 && isZeroConst(args[0]) && setterStoresParam(p, p.Fn(sp.pkg, sp.typ, selfM.Name()), idx) {
+							return true
+						}
+						badSetter = in
 					}
 				}
 				return false
@@ -167,6 +172,9 @@ func runC20_1(c *Ctx) {
 				if badStore != nil {
 					msg = fmt.Sprintf("field %s.%s is assigned a non-default value at %s in %s", sp.typ, f.Name(), p.InstrPos(badStore), FnName(fn))
 				}
+				if badSetter != nil && badStore == nil {
+					msg = fmt.Sprintf("the reset of %s.%s is delegated to %s at %s, but that call does not pass the default or the setter does not store its argument on every path (e.g. it ignores the empty value): a previous user's value survives recycling", sp.typ, f.Name(), selfM.Name(), p.InstrPos(badSetter))
+				}
 				var path []string
 				for _, e := range exits {
 					path = append(path, "exit without reset: "+p.InstrPos(e))
@@ -175,6 +183,19 @@ func runC20_1(c *Ctx) {
 			}
 		}
 	}
+}
+
+// setterStoresParam: on every path from its entry fn stores its (single) parameter into recv.field[idx].
+func setterStoresParam(p *Prog, fn *ssa.Function, idx int) bool {
+	if fn == nil || len(fn.Params) != 2 {
+		return false
+	}
+	recv, prm := fn.Params[0], fn.Params[1]
+	ok, _ := p.MustPassFromEntry(fn, func(in ssa.Instruction) bool {
+		st, isSt := in.(*ssa.Store)
+		return isSt && IsRecvField(st.Addr, recv, idx) && st.Val == ssa.Value(prm)
+	}, nil)
+	return ok
 }
 
 func pkgShort(path string) string {
